@@ -186,12 +186,19 @@ func parseRaces(stderr string) []raceReport {
 		var tops []string
 		blk := lines[i:j]
 		for k := 0; k < len(blk); k++ {
-			if raceHdr.MatchString(blk[k]) && k+1 < len(blk) {
-				f := strings.TrimSpace(blk[k+1])
-				if p := strings.LastIndexByte(f, '('); p > 0 {
-					f = f[:p]
+			if raceHdr.MatchString(blk[k]) {
+				// innermost frame that is not the runtime's (append/copy report through runtime.slicecopy, growslice, ...)
+				for j := k + 1; j+1 < len(blk) && strings.TrimSpace(blk[j]) != ""; j += 2 {
+					f := strings.TrimSpace(blk[j])
+					if p := strings.LastIndexByte(f, '('); p > 0 {
+						f = f[:p]
+					}
+					if strings.HasPrefix(f, "runtime.") {
+						continue
+					}
+					tops = append(tops, f)
+					break
 				}
-				tops = append(tops, f)
 			}
 		}
 		lib := len(tops) == 2
